@@ -1237,7 +1237,10 @@ def evaluate_log_F_ext(
             )
             if num_F_ext_evaluations <= 0:
                 evaluations = _evaluate_log_F_ext_using_lmfit(**evaluation_kwargs)
-            elif num_procs > 1:
+            elif num_procs > 1 and test != "cnls":
+                # The "cnls" implementation creates its own pool of processes
+                # for each evaluation and worker processes are not allowed to
+                # have children, so the evaluations are performed one by one.
                 # TODO: Figure out why this causes a RuntimeError related to
                 # the matplotlib window. Tends to happen when using the CLI and
                 # several windows have been shown. The same doesn't happen when,
